@@ -38,8 +38,8 @@ struct Ev  { int v; };
 template <typename TConfig>
 struct Prog {
 	using M = ffsm2::MachineT<TConfig>;
-	struct R; struct A; struct B; struct C;
-	using FSM = typename M::template Root<R, A, B, C>;
+	struct R; struct A; struct B; struct C; struct D;
+	using FSM = typename M::template Root<R, A, B, C, D>;
 
 	struct Base : FSM::State {
 		using GuardControl = typename FSM::GuardControl;
@@ -109,6 +109,15 @@ struct Prog {
 		void exitGuard(GuardControl&) {} void exit(PlanControl&) {}
 	};
 
+	// callbacks need not return void: the library never looks at what they return
+	struct D : FSM::State {
+		bool entryGuard(typename FSM::GuardControl&) { return true; }
+		int  enter(typename FSM::State::PlanControl&) { return 1; }
+		bool update(typename FSM::FullControl& c) { c.changeTo(0); return false; }
+		bool exitGuard(typename FSM::GuardControl&) { return true; }
+		long exit(typename FSM::State::PlanControl&) { return 0; }
+	};
+
 	template <typename TInstance>
 	static int drive(TInstance& m) {
 		int r = 0;
@@ -118,6 +127,7 @@ struct Prog {
 		m.changeTo(1);
 		m.template changeTo<C>();
 		m.immediateChangeTo(0);
+		m.template immediateChangeTo<D>(); m.update();
 		m.template immediateChangeTo<B>();
 		r += m.activeStateId();
 		r += m.isActive(0) ? 1 : 0;
